@@ -107,8 +107,8 @@ theorem extra_keys_need_additional_properties (O : Oracles) (c : ClassOpts)
 
 /-- **C06, "exactly the images" (partial: the exact fragment)**: for every class of the fragment
     `exactDecl` — scalars with every constraint, enums, Array / Deque / Tuple (uniqueItems only over
-    plain scalar items),
-    nested Structure classes, at any depth — every JSON document `d` and every flag setting, the
+    plain scalar items), Set of strings (mutable or immutable), Map from strings to anything of the
+    fragment, nested Structure classes, at any depth — every JSON document `d` and every flag setting, the
     Deserializer succeeds with result `x` exactly when `d` is the documented JSON form of keyword
     arguments that the constructor accepts, and `x` is the instance the constructor builds from them -/
 theorem deserialize_exact_partial (O : Oracles) (opts : DeserOpts) (c : ClassOpts)
@@ -121,7 +121,8 @@ theorem deserialize_exact_partial (O : Oracles) (opts : DeserOpts) (c : ClassOpt
   have hnd' : (fields.map (·.1)).Nodup := by simpa using hnd
   cases d with
   | dict kvs =>
-    have hj' : strictJsonPairs kvs = true := by simpa [strictJson] using hj
+    have hj' : strictJsonPairs kvs = true := by
+      have := hj; simp only [strictJson, Bool.and_eq_true] at this; exact this.2
     rcases strict_kwOfDict kvs hj' with ⟨doc, hdoc, hall⟩
     have hE : ∀ a ∈ deserExtras opts c (fields.map (·.1)) doc, a.1 ∉ fields.map (·.1) := by
       intro a ha
@@ -202,6 +203,35 @@ theorem exact_fragment_example :
     ∧ exactDecl (.struct { name := "Outer", required := ["n"], accepts := ["Outer"] }
         [("n", exCls), ("t", .tuplePos [.integer {}, .string none (some 3) none] false),
          ("u", .seqOf .deque (.string none none none) { uniq := true, min := some 1 })] []) = true := by
+  decide
+
+
+/-- Set and Map inside the exact fragment: a class with a Set of strings and a Map from strings to
+    arrays of nested structures lies in the fragment, its document is a JSON document, the model
+    deserializes it to the documented instance (duplicates of the set collapse, enum names become
+    members) and the specification agrees; a document whose set holds a non-string is rejected -/
+def exMapCls : FieldDecl :=
+  .struct { name := "M", required := ["tags", "m"], addl := false, accepts := ["M"] }
+    [("tags", .setOf false (.string none (some 3) none) { max := some 2 }),
+     ("m", .mapOf (.string (some 1) none none) (.seqOf .list exCls {}) { min := some 1 })] []
+
+theorem exact_set_map_example :
+    exactDecl exMapCls = true
+    ∧ strictJson (.dict [(.str "tags", .list [.str "x", .str "y", .str "x"]),
+        (.str "m", .dict [(.str "k", .list [.dict [(.str "a", .list [.str "RED"])]])])]) = true
+    ∧ (match deserialize exO {} exMapCls (.dict [(.str "tags", .list [.str "x", .str "y", .str "x"]),
+          (.str "m", .dict [(.str "k", .list [.dict [(.str "a", .list [.str "RED"])]])])]) with
+      | .ok (.inst "M" [("tags", .set false [.str "x", .str "y"]),
+            ("m", .dict [(.str "k", .list [.inst "A" [("a", .list [.enumv "Color" "RED"])]])])]) => true
+      | _ => false) = true
+    ∧ (match expectedDeser exO {} exMapCls (.dict [(.str "tags", .list [.str "x", .str "y", .str "x"]),
+          (.str "m", .dict [(.str "k", .list [.dict [(.str "a", .list [.str "RED"])]])])]) with
+      | some (.inst "M" _) => true | _ => false) = true
+    ∧ (match deserialize exO {} exMapCls (.dict [(.str "tags", .list [.str "x", .int 1]),
+          (.str "m", .dict [(.str "k", .list [])])]) with
+      | .error _ => true | _ => false) = true
+    ∧ (expectedDeser exO {} exMapCls (.dict [(.str "tags", .list [.str "x", .int 1]),
+          (.str "m", .dict [(.str "k", .list [])])])).isNone = true := by
   decide
 
 end Typedpy.C06
